@@ -195,9 +195,14 @@ def memoryblock_typestate(facts, res):
         raise AnalysisBroken("TbfMemoryBlock move assignment not found")
     dels, _ = guarded_free(mv[0], "move")
     t = facts.ntext(tbf.body(mv[0]))
+    o = mv[0]["params"][0]["name"]
+    fieldnames = {fl["name"] for fl in cls["fields"]}
+    for anchor in ("rawMemoryPtr", "objectOwnData"):
+        if anchor not in fieldnames:
+            raise AnalysisBroken("TbfMemoryBlock has no member '%s' any more: the ownership rules must be re-read" % anchor)
     res.instance(R, "move-assignment", facts.loc(mv[0]), "%d guarded delete[]; steals and nulls" % len(dels))
-    for need, why in (("rawMemoryPtr=other.rawMemoryPtr;", "does not take the buffer"), ("objectOwnData=other.objectOwnData;", "does not take the ownership flag"),
-                      ("other.rawMemoryPtr=nullptr;", "leaves the moved-from object pointing at the buffer (double free)"), ("other.objectOwnData=false;", "leaves the moved-from object owning (double free)")):
+    for need, why in (("rawMemoryPtr=%s.rawMemoryPtr;" % o, "does not take the buffer"), ("objectOwnData=%s.objectOwnData;" % o, "does not take the ownership flag"),
+                      ("%s.rawMemoryPtr=nullptr;" % o, "leaves the moved-from object pointing at the buffer (double free)"), ("%s.objectOwnData=false;" % o, "leaves the moved-from object owning (double free)")):
         if need not in t:
             res.violation(R, f, mv[0]["qname"], "move:" + need.split("=")[0], mv[0]["l"][1], "move assignment " + why)
     if len(dels) != 1:
@@ -207,7 +212,7 @@ def memoryblock_typestate(facts, res):
     if len(mc) == 1:
         t2 = facts.ntext(tbf.body(mc[0]))
         res.instance(R, "move-constructor", facts.loc(mc[0]), t2)
-        if "std::move(other)" not in t2:
+        if ("std::move(%s)" % mc[0]["params"][0]["name"]) not in t2:
             res.violation(R, f, mc[0]["qname"], "movector", mc[0]["l"][1], "move constructor does not move-assign from its argument")
     # ownership set exactly where allocated
     rs = facts.fn("TbfMemoryBlock::resetBlocksFromSizes")
